@@ -63,7 +63,7 @@ func (g *generator) generateParallel(
 	// Get the expression's End position and find the associated line.
 	endPos := g.fset.Position(p.End())
 	// -1 because this is a line above the closing }().
-	fmt.Fprintf(w, "/*line %v:%d*/", filepath.Base(p.PosInfo.File), endPos.Line-1)
+	fmt.Fprintf(w, "/*line %v:%d*/", filepath.Base(p.PosInfo.File), lineAbove(endPos))
 	if _, err := io.WriteString(w, "}()"); err != nil {
 		return err
 	}
